@@ -190,7 +190,9 @@ def rule_none(ctx: Ctx):
                 continue
             tolerated = tol[0].x["taken"]
             if tolerated:
-                ok = p.kind == "return" and isinstance(p.value, ast.Constant) and p.value.value is None
+                # None, or the result component of a rejected activation (which is None, see C14.flow)
+                rejected = {f"{show(result_of(a, p))}[1]" for a in _activate_calls(ctx, p)}
+                ok = p.kind == "return" and ((isinstance(p.value, ast.Constant) and p.value.value is None) or show(p.value) in rejected)
                 rep.check(ok, "C01.none", tol[0].loc(), f"{eng.name}: a tolerated event without transition returns None and raises nothing",
                           fn.key, f"tolerated path ends with {p.kind} {show(p.value)}")
             else:
